@@ -160,9 +160,50 @@ func readTable(b []byte) (header []string, rows []map[string]string, err error) 
 	return
 }
 
+// c20Sizes: journals of many trips (around powers of two, not multiples of 8, thousands) with a
+// fixed pattern of stop times per trip: sizes at which buffers grow or work is split up.
+var c20TripCounts = []int{7, 8, 9, 63, 64, 65, 255, 256, 257, 511, 512, 513, 517, 1003, 1024, 1025, 2049, 4099}
+var c20StopPatterns = []string{"i mod 3 stop times", "one each", "none except the last trip (3)", "two each, none in the first trip"}
+
+func c20Sizes(c *Ctx) {
+	n := c20TripCounts[c.Free("trips", len(c20TripCounts))]
+	pat := c.Free("stop_times", len(c20StopPatterns))
+	j := &journal.Journal{}
+	for i := 0; i < n; i++ {
+		t := journal.Trip{TripUID: fmt.Sprintf("%d_L..N%d", 1700000000+60*i, i), TripID: fmt.Sprintf("%06d_L..N", i), RouteID: "L", DirectionID: gtfs.DirectionID(i % 3),
+			StartTime: time.Unix(int64(1700000000+60*i), 0).UTC(), VehicleID: fmt.Sprintf("0L %d", i), IsAssigned: true, LastObserved: time.Unix(int64(1700000500+60*i), 0).UTC(), NumUpdates: i}
+		k := 0
+		switch pat {
+		case 0:
+			k = i % 3
+		case 1:
+			k = 1
+		case 2:
+			if i == n-1 {
+				k = 3
+			}
+		case 3:
+			if i > 0 {
+				k = 2
+			}
+		}
+		for s := 0; s < k; s++ {
+			a := time.Unix(int64(1700000000+60*i+s), 0).UTC()
+			tr := fmt.Sprintf("T%d", s)
+			t.StopTimes = append(t.StopTimes, journal.StopTime{StopID: fmt.Sprintf("L%02d-%d", s, i), Track: &tr, ArrivalTime: &a, LastObserved: a})
+		}
+		j.Trips = append(j.Trips, t)
+	}
+	c.Witness("journal_of_many_trips")
+	c20Verify(c, j)
+}
+
 func c20Harness(maxTrips int) Harness {
-	return func(c *Ctx) {
-		j := c20Gen(c, maxTrips)
+	return func(c *Ctx) { c20Verify(c, c20Gen(c, maxTrips)) }
+}
+
+func c20Verify(c *Ctx, j *journal.Journal) {
+	{
 		before := dumpJournal(j)
 		nst := 0
 		for i := range j.Trips {
@@ -258,14 +299,14 @@ func init() {
 	register(&Check{
 		ID:    "C20",
 		Level: "model_checking",
-		Rule: "journals with 0..2 (thorough 0..3) trips x 0..2 stop times per trip (full product over the counts) x k deviations (quick 2, thorough 3) over presence of track/arrival/departure/marked-past, direction (0/1/unspecified/out-of-range), id shapes (NYCT-like, empty, spaces, leading space, non-ASCII, characters such as + & < > ' ; | \\ that are special in other formats but not in CSV), counters (negative, zero, large), zero start times; " +
+		Rule: "journals with 0..2 (thorough 0..3) trips x 0..2 stop times per trip (full product over the counts) x k deviations (quick 2, thorough 3) over presence of track/arrival/departure/marked-past, direction (0/1/unspecified/out-of-range), id shapes (NYCT-like, empty, spaces, leading space, non-ASCII, characters such as + & < > ' ; | \\ that are special in other formats but not in CSV), counters (negative, zero, large), zero start times; journals of 7..4099 trips (around powers of two, not multiples of 8) x 4 patterns of stop times per trip; " +
 			"non-trivial = distinct journals with at least one trip; oracle = read back with encoding/csv by header name, cell-by-cell, journal dumped before/after",
 		Assumptions: []string{"ids and tracks are free of comma, double quote, CR and LF, as the property stipulates", "header names of the two tables are part of the observable interface"},
 		Scenarios: func(tier string) []*Scenario {
 			if tier == "thorough" {
-				return []*Scenario{{Name: "journals<=3trips", Bound: 3, Run: c20Harness(3)}, {Name: "journals<=2trips-k4", Bound: 4, Run: c20Harness(2)}}
+				return []*Scenario{{Name: "journals<=3trips", Bound: 3, Run: c20Harness(3)}, {Name: "journals<=2trips-k4", Bound: 4, Run: c20Harness(2)}, {Name: "sizes", Bound: -1, Run: c20Sizes}}
 			}
-			return []*Scenario{{Name: "journals<=2trips", Bound: 2, Run: c20Harness(2)}}
+			return []*Scenario{{Name: "journals<=2trips", Bound: 2, Run: c20Harness(2)}, {Name: "sizes", Bound: -1, Run: c20Sizes}}
 		},
 	})
 }
